@@ -33,7 +33,8 @@ MANIFEST = dict(
           'cleanups before any task that can open the file is submitted, cleanups run on every non-success announce (C05/C08), '
           'a failing rename reaches Task.__call__ and fails the transfer (C03). The final IO task is submitted exactly once: '
           'as done-callback of the single GET task or by the count-to-zero invoker (monitor, C04).'
-          ' Legacy ranged download returns normally only if both of its threads finished without an exception; OSUtils.allocate removes what it created on failure; the CountCallbackInvoker (which releases the final rename) is verified as a monitor.'),
+          ' Legacy ranged download returns normally only if both of its threads finished without an exception; OSUtils.allocate removes what it created on failure; the CountCallbackInvoker (which releases the final rename) is verified as a monitor.'
+          ' Also: OSUtils.get_temp_filename (over symbolic strings: temp name != destination, same directory, whole random suffix, <= 255 characters), the legacy IO thread (each queued chunk written once at its offset, stops only on the sentinel, a failing write shuts the queue down).'),
     note=('os.rename atomicity and os.remove semantics are assumed (A-OS); that all queued writes ran before the final task '
           'rests on the single-thread FIFO IO executor (A-EXECUTOR); legacy S3Transfer.download_file, process pool and CRT '
           'handlers are covered under C19 / C20 / legacy contracts.'),
